@@ -24,6 +24,10 @@ Tie / fault enumeration:
      parsed" deliveries are counted in the evidence, not reported.
  (C) command line: `decode`, `decode -m [--continue-on-error]`, `info` on damaged files: no traceback, a
      message on stderr (the exit status is 0 by design of `__init__.main`).
+ (D) histories: sessions of operations (process / process without signature search / scan; strict or lenient, full
+     or metadata-only, with and without continue-on-error and filter; valid, damaged, truncated input; mixed
+     editions and section-2 presence) in random order on ONE Decoder object; every operation against the same
+     operation on a fresh Decoder, the oracle and the (stateless) model.  Theorems: Props/C12History.lean.
 """
 import contextlib
 import io
@@ -51,7 +55,10 @@ META = dict(
          'regardless of the flag (why F9 mattered); at message level bytes that follow never influence the decoding and no proper '
          'prefix of a fully consumed message decodes (from the C04 frame theorems and the data-level frame lemma of Props/C12.lean); '
          'an expected-value mismatch (7777) is the library error. Plus fault enumeration against the implementation: every '
-         'truncation point, every subset of damaged messages x 5 damage kinds x modes, and the command line.',
+         'truncation point, every subset of damaged messages x 5 damage kinds x modes, and the command line. The Decoder object is '
+         'modelled as a state machine (its table of section configurations as a memo table): after ANY history of operations every '
+         'operation gives the stateless model\'s result (C12_history_*); checked on the implementation by random sessions of '
+         'strict / lenient / metadata-only / failing decodes and scans on ONE Decoder object against a fresh object, the oracle and the model.',
     technique='Lean 4 theorems (induction over the stream, frame lemma) + checked model/implementation correspondence under fault enumeration',
     note='Which length faults are *detected* is not a theorem (BUFR has no checksum): the check counts damaged-but-still-parsed '
          'deliveries. In the one-byte skip branch the scan searches the signature again inside the damaged message; the theorem '
